@@ -188,6 +188,10 @@ fn gen_base(rng: &mut Rng) -> ConnScenario {
         client.extras.push(Extra {
             after_ack: true, at_ns: ms(rng.range(1, 60_000)), id: 0x04, body: Body::KeepAlive { id: KaId::Fixed(rng.next_u64()) } });
     }
+    // a client that pipelines Login Acknowledged (and its configuration frames) behind the Encryption Response
+    if rng.chance(1, 6) {
+        client.early_ack = true;
+    }
     // a client that never echoes: the reference outcome is the timeout, whatever the transport does
     if rng.chance(1, 6) {
         client.ka_default = crate::client::KaPolicy::Never;
